@@ -94,7 +94,7 @@ PROPS = {
         engine="step-harness",
     ),
     "C18": dict(
-        lean_modules=["Swim.Lemmas.Merge", "Swim.Props.C18", 'Swim.Model.Cluster', 'Swim.Props.Cluster', 'Swim.Props.Projection'],
+        lean_modules=["Swim.Lemmas.Merge", "Swim.Props.C18", 'Swim.Model.Cluster', 'Swim.Props.Cluster', 'Swim.Props.Projection', "Swim.Props.Handoff"],
         tests="^TestC18$",
         shards_quick=8,
         rule='random histories with the allow-list on (10.0.0.0/8, fd00::/8) and half of the claimed addresses drawn from outside / malformed / IPv6 / v4-mapped classes, over direct alive claims, push/pull entries, address changes and name reclaims; every record and join event after every step must carry an allowed address; non-trivial/distinct as C01',
@@ -141,7 +141,7 @@ PROPS = {
         engine="codec-harness",
     ),
     "C13": dict(
-        lean_modules=["Swim.Model.Ingest", "Swim.Props.C13", "Swim.Model.Msgpack", "Swim.Props.Msgpack"],
+        lean_modules=["Swim.Model.Ingest", "Swim.Props.C13", "Swim.Model.Msgpack", "Swim.Props.Msgpack", "Swim.Props.Handoff"],
         tests="^TestC13$",
         shards_quick=4,
         rule=("(pkt) random framing trees on the plaintext packet path (compound nesting to depth 4, user / unsupported / undecodable leaves, "
@@ -331,7 +331,7 @@ EXTRA_RULES = {
     "C08": "Also: leave simulator with user broadcasts pending and with an application that has one for every packet.",
     "C09": "Also: (ppf) the plaintext stream a real node writes for a Join parsed and re-encoded by the msgpack model; (rrs) as for C01; (busy) a join against a host serving 125-127 stalled exchanges: success must be mutual.",
     "C10": "Also: (scale) retransmitLimit against its integer model over whole ranges.",
-    "C13": "Also: sealed-length declarations above the cap on a keyed node (bytes taken off the connection counted); (nacks) more nacks for an in-flight probe than its channel holds, with watchdogs on the packet path, the probe and Shutdown; degenerate compression envelopes.",
+    "C13": "Also: (handoff) messages piling up in small handoff queues while the handler is parked - what takes effect afterwards, and in which order, against the queue model; sealed-length declarations above the cap on a keyed node (bytes taken off the connection counted); (nacks) more nacks for an in-flight probe than its channel holds, with watchdogs on the packet path, the probe and Shutdown; degenerate compression envelopes.",
     "C14": "Also: sources with unsealed compressed frames, keys removed mid-stream, and a foreign label header on a skip-inbound receiver.",
     "C15": "Also: user messages of random lengths on both paths in every case; rotation histories with repeated and absent keys; (race) old-key traffic read on some goroutines while others send - everything sealed under the primary key.",
     "C16": "Also: the sender may delegate its own inbound check; (alias) transports that keep the slices they are handed: a packet must not change after WriteTo returned.",
